@@ -1,14 +1,17 @@
 #!/bin/bash
-# runs ./check all against every harmless edit under selftest/benign: all must exit 0
-cd /verif
-export VERIF_BUILD=/verif/.build/benign VERIF_EVIDENCE=/verif/.build/benign/evidence VERIF_REPLAYS=/verif/.build/benign/replays
-mkdir -p $VERIF_BUILD
-S=/verif/.build/benign/repo
-for d in selftest/benign/*.diff; do
-  n=$(basename $d .diff)
-  rm -rf $S && mkdir -p $S && cp -r /repo/src $S/src
-  if ! (cd $S && patch -p1 -s < /verif/$d >/dev/null 2>&1); then echo "$n PATCH-FAILS"; continue; fi
-  out=$(VERIF_REPO=$S ./check all 2>&1); rc=$?
-  echo "$n | exit=$rc | $(echo "$out" | grep -E 'VIOLATION|UNDECIDED|failed obligation' | head -4 | cut -c1-200 | tr '\n' ' ')"
-done
-rm -rf $S
+# runs ./check all against every behaviour-preserving edit under selftest/benign (hand-made) and
+# selftest/benign_agents (made by sub-agents who saw nothing of /verif): none may print VIOLATION.
+# exit 0 = proved unchanged, exit 2 = undecided (allowed, reported), exit 1 = FALSE ALARM.
+V=$(cd "$(dirname "$0")/.." && pwd); export V
+cd $V
+one() {
+  d=$1; n=$(basename $d .diff)
+  B=$V/.build/bn_$n; S=$B/repo
+  mkdir -p $B; rm -rf $S && mkdir -p $S && cp -r /repo/src $S/src
+  (cd $S && patch -p1 -s < $V/$d >/dev/null 2>&1) || { echo "$n | PATCH-FAILS"; rm -rf $B; return; }
+  out=$(VERIF_BUILD=$B VERIF_EVIDENCE=$B/evidence VERIF_REPLAYS=$B/replays VERIF_REPO=$S ./check all 2>&1); rc=$?
+  echo "$n | exit=$rc | $(echo "$out" | grep -E 'VIOLATION|UNDECIDED|failed obligation' | head -3 | cut -c1-260 | tr '\n' ' ')"
+  [ -n "$KEEP_BUILD" ] && [ $rc != 0 ] || rm -rf $B
+}
+export -f one
+ls selftest/benign/*.diff selftest/benign_agents/*.diff | xargs -P 6 -n 1 bash -c 'one "$0"' | sort
